@@ -1203,9 +1203,19 @@ where
 
         module.visit_mut_children_with(self);
 
+        // generated items go after the directives (`"use strict"`, `"use client"`, ...) the module
+        // starts with: anything in front of a directive turns it into an ordinary statement
+        let head = module
+            .body
+            .iter()
+            .take_while(
+                |item| matches!(item, ModuleItem::Stmt(stmt) if util::is_directive_stmt(stmt)),
+            )
+            .count();
+
         if !self.injecting_consts.is_empty() {
             module.body.insert(
-                0,
+                head,
                 ModuleItem::Stmt(Stmt::Decl(Decl::Var(Box::new(VarDecl {
                     span: DUMMY_SP,
                     kind: VarDeclKind::Const,
@@ -1217,7 +1227,7 @@ where
 
         if !self.injecting_vars.is_empty() {
             module.body.insert(
-                0,
+                head,
                 ModuleItem::Stmt(Stmt::Decl(Decl::Var(Box::new(VarDecl {
                     span: DUMMY_SP,
                     kind: VarDeclKind::Let,
@@ -1230,7 +1240,7 @@ where
 
         if let Some(slot_helper) = &self.slot_helper_ident {
             module.body.insert(
-                0,
+                head,
                 ModuleItem::Stmt(Stmt::Decl(Decl::Fn(util::build_slot_helper(
                     slot_helper.clone(),
                     self.import_from_vue("isVNode"),
@@ -1240,7 +1250,7 @@ where
 
         if let Some(helper) = &self.transform_on_helper {
             module.body.insert(
-                0,
+                head,
                 ModuleItem::ModuleDecl(ModuleDecl::Import(ImportDecl {
                     span: DUMMY_SP,
                     specifiers: vec![ImportSpecifier::Default(ImportDefaultSpecifier {
@@ -1257,7 +1267,7 @@ where
 
         if !self.vue_imports.is_empty() {
             module.body.insert(
-                0,
+                head,
                 ModuleItem::ModuleDecl(ModuleDecl::Import(ImportDecl {
                     span: DUMMY_SP,
                     specifiers: self
@@ -1296,9 +1306,15 @@ where
         });
         stmts.visit_mut_children_with(self);
 
+        // keep a directive prologue (`"use strict"`) in front of what gets declared here
+        let head = stmts
+            .iter()
+            .take_while(|stmt| util::is_directive_stmt(stmt))
+            .count();
+
         if !self.injecting_consts.is_empty() {
             stmts.insert(
-                0,
+                head,
                 Stmt::Decl(Decl::Var(Box::new(VarDecl {
                     span: DUMMY_SP,
                     kind: VarDeclKind::Const,
@@ -1310,7 +1326,7 @@ where
 
         if !self.injecting_vars.is_empty() {
             stmts.insert(
-                0,
+                head,
                 Stmt::Decl(Decl::Var(Box::new(VarDecl {
                     span: DUMMY_SP,
                     kind: VarDeclKind::Let,
